@@ -135,6 +135,44 @@ theorem vm_run_noPanic (np : String → Option Prog) (hall : ∀ name, ∃ p, np
     (fuel : Nat) (m : Mach) (s : String) (m' : Mach) : Mach.run np fuel m ≠ some (.panic s, m') :=
   Mach.run_np np hall fuel m s m'
 
+/-- undoing one log entry answers `ok` or an error value, whatever the machine: every entry that takes something off a
+    stack looks at the current context's mark first (seeded change C08/11 dropped that look for the undo of `do`, and a
+    later step sliced the loop stack from beyond its end) -/
+theorem undo_never_panics (c : Mach.Core) (st : RStep) (p : String) : (Mach.undoC c st).1 ≠ .panic p := by
+  cases st <;> simp only [Mach.undoC] <;> (repeat' split) <;> simp
+
+theorem undoSeg_never_panics : ∀ (l : List RStep) (c : Mach.Core) (p : String), (Mach.undoSeg l c).1 ≠ .panic p
+  | [], c, p => by simp [Mach.undoSeg]
+  | st :: rest, c, p => by
+    cases st
+    case setIp ip => simp [Mach.undoSeg]
+    all_goals
+      simp only [Mach.undoSeg]
+      split
+      · exact undoSeg_never_panics rest _ p
+      · simp
+      · rename_i q c' hq
+        exact absurd (congrArg Prod.fst hq) (undo_never_panics c _ q)
+
+/-- **a reverse step never panics**: `State::rnext` on any machine, with any reverse log — also one whose entries no
+    longer fit the stacks (a probe that failed while the program was paused left its context open; the program's own
+    entries then reach below that context's marks): the answer is `ok` or an error value -/
+theorem reverse_step_never_panics (m : Mach) (p : String) : (Mach.rnext m).1 ≠ .panic p := by
+  unfold Mach.rnext
+  cases hl : m.log with
+  | none => simp
+  | some l =>
+    simp only
+    cases l with
+    | nil => simp [Mach.rnextC]
+    | cons st rest =>
+      simp only [Mach.rnextC]
+      split
+      · exact undoSeg_never_panics rest _ p
+      · simp
+      · rename_i q c' hq
+        exact absurd (congrArg Prod.fst hq) (undo_never_panics m.core _ q)
+
 /-- **a whole source never panics**: `build_from_source` — reading, compiling, running the meta blocks, closing the
     context and (in eval mode) running the program — on any session whatsoever (no well-formedness assumed), in any
     mode, with any token list and any fuel: the answer is never `panic`. Holding for every session, it holds after
